@@ -250,7 +250,7 @@ func verify(args []string) int {
 		}
 		sem2 := make(chan struct{}, 3)
 		for i, o := range outs {
-			if o.Status == "unknown" && claimed[o.Obl.Name] {
+			if o.Status == "unknown" && claimed[o.Obl.Name] && !*noEvidence { // not in must-fail corpus runs (-noevidence)
 				wg.Add(1)
 				sem2 <- struct{}{}
 				go func(i int, ob *vc.Obligation) {
